@@ -389,6 +389,9 @@ func flowConfig(flags string, minFee common.Fixed64) (*config.Configuration, uin
 	return &cfg, height
 }
 
+// a second asset id (outputs of another asset than ELA)
+var foreignAsset = common.Uint256{0xa5, 0x5e, 0x70, 0x01}
+
 func execFlow(t []string) string {
 	setup()
 	kind := common2.TxType(atoi(t[1]))
@@ -429,6 +432,9 @@ func execFlow(t []string) string {
 			outputs[0].ProgramHash = *cfg.StakePoolProgramHash
 			outputs[0].Payload = &outputpayload.ExchangeVotesOutput{Version: 0, StakeAddress: stakeAddr()}
 		}
+	}
+	if t[0] == "flowx" && len(outputs) > 0 { // the last output is denominated in another asset
+		outputs[len(outputs)-1].AssetID = foreignAsset
 	}
 	ins := mkInputs(its)
 	var programs []*pg.Program
@@ -726,6 +732,61 @@ func execSpend(t []string) string {
 	return strings.Join(parts, " ; ")
 }
 
+// orph <order> <m> (idx seq)* <n> o1..on
+//
+// two real blocks on the tip of the regnet node: an empty parent and a child that carries one signed
+// TransferAsset spending outputs of the funding transaction (m = 0: no transaction), delivered
+// through the real BlockChain.ProcessBlock parent-first (pc) or child-first (cp, the child waits as
+// an orphan).  -> "adv=<how many blocks the best chain grew>"
+func execOrph(t []string) string {
+	setupNode()
+	myLedger, myFound, myParams := blockchain.DefaultLedger, blockchain.FoundationAddress, config.DefaultParams
+	blockchain.DefaultLedger, blockchain.FoundationAddress, config.DefaultParams = rnLedger, rnFound, *rn.Params
+	defer func() {
+		blockchain.DefaultLedger, blockchain.FoundationAddress, config.DefaultParams = myLedger, myFound, myParams
+	}()
+	rn.Chain.UTXOCache.CleanCache()
+	defer rn.Chain.UTXOCache.CleanCache()
+	sts := parseSpend(append([]string{"spend", "1"}, t[2:]...))
+	st := sts[0]
+	tipHash, h0 := rn.Tip()
+	parent, err := rn.Mine(rn.Block(tipHash), nil)
+	if err != nil {
+		panic("harness: mine parent: " + err.Error())
+	}
+	var txs []interfaces.Transaction
+	if len(st.idx) > 0 {
+		var ins []*common2.Input
+		for j := range st.idx {
+			ins = append(ins, &common2.Input{Previous: common2.OutPoint{TxID: fundTx, Index: uint16(st.idx[j])}, Sequence: st.seq[j]})
+		}
+		var outs []*common2.Output
+		for _, v := range st.outs {
+			outs = append(outs, &common2.Output{AssetID: core.ELAAssetID, Value: v, ProgramHash: rn.Addr(2),
+				Type: common2.OTNone, Payload: &outputpayload.DefaultOutput{}})
+		}
+		tx := functions.CreateTransaction(common2.TxVersion09, common2.TransferAsset, 0, &payload.TransferAsset{},
+			[]*common2.Attribute{{Usage: common2.Nonce, Data: []byte{byte(h0), byte(h0 >> 8), 9}}}, ins, outs, 0, nil)
+		if err := rn.Sign(tx, 1); err != nil {
+			panic("harness: sign: " + err.Error())
+		}
+		txs = append(txs, tx)
+	}
+	child, err := rn.Mine(parent, txs)
+	if err != nil {
+		panic("harness: mine child: " + err.Error())
+	}
+	if t[1] == "cp" {
+		rn.Deliver(child)
+		rn.Deliver(parent)
+	} else {
+		rn.Deliver(parent)
+		rn.Deliver(child)
+	}
+	_, h1 := rn.Tip()
+	return fmt.Sprintf("adv=%d", h1-h0)
+}
+
 // ---------------------------------------------------------------- generator
 
 const ELA = 100000000
@@ -1002,6 +1063,21 @@ func gen(g *hx.Gen) {
 		if len(its) > 0 && r.Chance(20) {
 			its, outs = withDup(r, its, outs, minFee)
 		}
+		if len(outs) >= 2 && r.Chance(12) { // last output in another asset; the others balance the inputs
+			if kind == common2.ActivateProducer && r.Chance(70) {
+				tot := uint64(0)
+				for _, in := range its {
+					tot += uint64(in.val)
+				}
+				acc := uint64(0)
+				for _, o := range outs[:len(outs)-2] {
+					acc += uint64(o)
+				}
+				outs[len(outs)-2] = int64(tot - acc)
+			}
+			g.Emit("flowx %d %s %d %s %s %s", kind, flags, minFee, special, vec(outs), insVec(its))
+			continue
+		}
 		g.Emit("flow %d %s %d %s %s %s", kind, flags, minFee, special, vec(outs), insVec(its))
 	}
 	// output-count limits
@@ -1090,6 +1166,24 @@ func gen(g *hx.Gen) {
 		}
 		g.Emit("%s", sb.String())
 	}
+	// blocks through the real ProcessBlock, in order and child-before-parent: only transactions that
+	// must be refused (so the node's UTXO set stays as it is) and empty children
+	no := g.N(24, 200)
+	for i := 0; i < no; i++ {
+		order := []string{"pc", "cp", "cp"}[r.Intn(3)]
+		idx := r.Intn(8)
+		v := int64(fundVals[idx])
+		switch r.Intn(4) {
+		case 0:
+			g.Emit("orph %s 0 0", order)
+		case 1: // wrapped total: four outputs of 2^62 plus the honest change
+			g.Emit("orph %s 1 %d 0 5 4611686018427387904 4611686018427387904 4611686018427387904 4611686018427387904 %d", order, idx, v-100)
+		case 2: // the same output twice
+			g.Emit("orph %s 2 %d 0 %d 1 1 %d", order, idx, idx, 2*v-100)
+		default: // pays out more than it spends
+			g.Emit("orph %s 1 %d 0 1 %d", order, idx, v+int64(1+r.Intn(1000)))
+		}
+	}
 }
 
 // ---------------------------------------------------------------- oracle (independent of the Lean model)
@@ -1134,7 +1228,21 @@ func judge(accepted bool, outs, refs []common.Fixed64, what string) *hx.Violatio
 func oracle(t []string, out string) *hx.Violation {
 	f := strings.Fields(out)
 	switch t[0] {
-	case "flow":
+	case "orph":
+		sts := parseSpend(append([]string{"spend", "1"}, t[2:]...))
+		if len(sts[0].idx) == 0 || out != "adv=2" {
+			return nil
+		}
+		seen := map[int]bool{}
+		var refs []common.Fixed64
+		for _, idx := range sts[0].idx {
+			if !seen[idx] {
+				refs = append(refs, fundVals[idx])
+			}
+			seen[idx] = true
+		}
+		return judge(true, sts[0].outs, refs, "BlockChain.ProcessBlock ("+t[1]+": child block delivered "+map[string]string{"cp": "before", "pc": "after"}[t[1]]+" its parent) connected the block, i.e.")
+	case "flow", "flowx":
 		if len(f) != 2 {
 			return nil
 		}
@@ -1207,7 +1315,7 @@ func nontrivial(t []string, out string) bool {
 func bucket(t []string, out string) string {
 	f := strings.Fields(out)
 	switch t[0] {
-	case "flow", "e2e":
+	case "flow", "flowx", "e2e":
 		k := t[0]
 		for _, x := range f {
 			if j := strings.IndexByte(x, ':'); j >= 0 {
@@ -1224,8 +1332,10 @@ func exec(t []string) string {
 	switch t[0] {
 	case "fee":
 		return execFee(t)
-	case "flow":
+	case "flow", "flowx":
 		return execFlow(t)
+	case "orph":
+		return execOrph(t)
 	case "e2e":
 		return execE2E(t)
 	case "actcr":
